@@ -253,6 +253,21 @@ func (c *Cluster) electLeader() {
 		c.fo.leader = c.thisNodeName
 		statsSet("ClusterLeader", 1)
 		logs.Info.Printf("'%s' elected self as a new leader", c.thisNodeName)
+
+		// While this node was a follower it adopted the ring of the previous leader, but the list of
+		// active nodes (and the fail counts it is derived from) is this node's own. Health checks
+		// advertise both: if they disagree the followers can never match the leader's signature.
+		c.fo.activeNodesLock.RLock()
+		activeNodes := c.fo.activeNodes
+		c.fo.activeNodesLock.RUnlock()
+		signature := c.ring.Signature()
+		c.rehash(activeNodes)
+		if c.ring.Signature() != signature {
+			c.invalidateProxySubs("")
+			c.gcProxySessions(activeNodes)
+			logs.Info.Println("cluster: new leader rehashing for nodes", activeNodes)
+			globals.hub.rehash <- true
+		}
 	}
 }
 
